@@ -145,8 +145,24 @@ func vRemoveWhitespaceOver(alphabet []byte, max int) {
 			VAssume(!vMergeable(x, y))
 			if vIsIdent(x) && vIsIdent(y) {
 				// two words are always separated by white space in the generated code (a comment alone never separates them)
+				// (white space INSIDE a comment does not count: "a/* */a" is not a shape the compiler emits)
 				ws := false
 				for j := pos[i-1][1]; j < pos[i][0]; j++ {
+					if in[j] == '/' && j+1 < pos[i][0] && in[j+1] == '*' {
+						j += 2
+						for j+1 < pos[i][0] && !(in[j] == '*' && in[j+1] == '/') {
+							j++
+						}
+						j++ // on the closing '/'
+						continue
+					}
+					if in[j] == '/' && j+1 < pos[i][0] && in[j+1] == '/' {
+						for j < pos[i][0] && in[j] != '\n' {
+							j++
+						}
+						j-- // the line end itself is white space outside the comment
+						continue
+					}
 					if vIsSpace(in[j]) {
 						ws = true
 					}
